@@ -77,7 +77,7 @@ Qed.
 Lemma fold_all_sound_l : forall en e e', fold_all e = Some e' -> eval en e' = eval en e.
 Proof.
   intros en e. induction e as [c|n c D p|n Ix D p|k| | |x IHx|f x IHx|o x IHx y IHy];
-    intros e' H; simpl in H; try (inversion H; reflexivity).
+    intros e' H; cbn [Model.fold_all] in H; try (inversion H; reflexivity).
   - destruct (fold_all x) as [x'|] eqn:E; inversion H; subst. simpl. rewrite (IHx x' eq_refl). reflexivity.
   - destruct (fold_all x) as [x'|] eqn:E; inversion H; subst. simpl. rewrite (IHx x' eq_refl). reflexivity.
   - destruct (fold_all x) as [x'|] eqn:Ex; [|discriminate].
@@ -268,5 +268,53 @@ Lemma trivial_var_sound_l : forall en name t Ix D p inner,
   respects en name t -> tat F t Ix = Some inner ->
   eval en inner = eval en (VR name Ix D p).
 Proof. intros. simpl. symmetry. apply H. assumption. Qed.
+
+(* ------------------------------------------------------------------------- *)
+(* the emitted order                                                            *)
+(* ------------------------------------------------------------------------- *)
+
+(* the value of an expression depends on the variables it mentions only *)
+Lemma eval_ext_l : forall (en1 en2 : env) e,
+  e_pd en1 = e_pd en2 -> e_gw en1 = e_gw en2 -> e_dx en1 = e_dx en2 -> e_ds en1 = e_ds en2 ->
+  e_fn en1 = e_fn en2 ->
+  (forall n, In n (vrefs F e) -> e_vr en1 n = e_vr en2 n) ->
+  eval en1 e = eval en2 e.
+Proof.
+  intros en1 en2 e Hpd Hgw Hdx Hds Hfn. induction e; simpl; intros Hv;
+    try (rewrite ?Hpd, ?Hgw, ?Hdx, ?Hds; reflexivity).
+  - rewrite (Hv name (or_introl eq_refl)). reflexivity.
+  - rewrite IHe; auto.
+  - rewrite Hfn, IHe; auto.
+  - rewrite IHe1, IHe2; auto; intros n Hn; apply Hv; apply in_or_app; auto.
+Qed.
+
+Lemma mem_false_not_in : forall s l, mem s l = false -> ~ In s l.
+Proof.
+  intros s l H Hin. unfold mem in H.
+  assert (existsb (String.eqb s) l = true).
+  { apply existsb_exists. exists s. split; auto. apply String.eqb_refl. }
+  congruence.
+Qed.
+
+(* one step of the emitted order: after binding a scalar variable to the value of its defining
+   expression, the variable has the value of that expression in the NEW environment, provided
+   the expression does not mention the variable itself *)
+Lemma bind_respects_scalar_l : forall (en : env) name e D p,
+  mem name (vrefs F e) = false ->
+  let en' := bind F f0 en name [] [eval en e] in
+  e_vr en' name [] D p = eval en' e.
+Proof.
+  intros en name e D p Hm en'. simpl. rewrite String.eqb_refl. simpl.
+  apply eval_ext_l; try reflexivity.
+  intros n Hn. simpl.
+  destruct (String.eqb n name) eqn:E; [|reflexivity].
+  apply String.eqb_eq in E. subst. exfalso. apply (mem_false_not_in _ _ Hm). assumption.
+Qed.
+
+(* later bindings of OTHER names do not disturb it *)
+Lemma bind_other_l : forall (en : env) name name' shape vals Ix D p,
+  String.eqb name name' = false ->
+  e_vr (bind F f0 en name' shape vals) name Ix D p = e_vr en name Ix D p.
+Proof. intros. simpl. rewrite H. reflexivity. Qed.
 
 End Proofs.
